@@ -73,6 +73,7 @@ type obsT struct {
 	Trailer  string `json:"trailer,omitempty"`
 	RetErr   bool   `json:"reterr"`
 	ErrText  string `json:"errtext,omitempty"`
+	ErrCode  int    `json:"errcode"`
 	Ret      string `json:"ret"`
 	Answered string `json:"answered"`
 }
@@ -450,6 +451,8 @@ func addQuery(a map[string]string) []kv {
 			v = "1"
 		case "size1024":
 			v = "size-1024"
+		case "bogus":
+			v = "bogus-chunker"
 		case "sha2256":
 			v = "sha2-256"
 		}
@@ -655,6 +658,9 @@ func (e *env) cidTok(c cid.Cid, root string) string {
 	if !c.Defined() {
 		return "undef"
 	}
+	if root == "-" {
+		return "notold" // the caller was not told any root CID
+	}
 	if root != "" && c.String() == root {
 		return "root"
 	}
@@ -675,6 +681,9 @@ func (e *env) project(calls []call, t0, t1x time.Time, root string) []opT {
 				}
 			}
 		case *api.Pin:
+			if n := len(ops); c.M == "BlockAllocate" && n > 0 && ops[n-1].M == "BlockAllocate" {
+				continue // the adder asks again for every node while allocation fails: one step
+			}
 			if c.M == "BlockAllocate" || root != "" {
 				arg = map[string]interface{}{"k": "addpin", "cid": e.cidTok(a.Cid, root), "opts": e.projOpts(&a.PinOptions, t0, t1x)}
 			} else {
